@@ -303,6 +303,14 @@ class Engine(object):
             return fresh(v)
         self.prims["is_fresh"] = GhostPrim("is_fresh", is_fresh)
 
+        def all_valid_names(ex, t):
+            """every Note of a string / course has a valid name"""
+            notes = t.items if isinstance(t, PList) else [t]
+            acc = [ex.truth(ex.run_spec_function(self.spec_lookup("is_name"), {"s": n.fields["name"]})) for n in notes]
+            acc = [z3.BoolVal(a) if isinstance(a, bool) else a for a in acc]
+            return mk_bool(z3.And(acc))
+        self.prims["all_valid_names"] = GhostPrim("all_valid_names", all_valid_names)
+
         def isstr(ex, v):
             return is_strlike(v)
         self.prims["is_str"] = GhostPrim("is_str", isstr)
